@@ -129,4 +129,17 @@ PROPS = {
         "thorough": {"cases": 30000, "shards": 16, "shrinktime": "120s", "timeout_s": 3000},
         "assumptions": RUN_ASSUME + ["bounded strings are ASCII (the schema library counts bytes)", "an object with a single property accepts that property's value in its place (schema library feature), such mutations are not used"],
     },
+    "C05": {
+        "test": "TestC05", "binary": "plain", "level": "fault_enumeration",
+        "rule": "rapid-generated programs (racy profile: never-ending steps, stop_if, soft-optional, foreach with failing items, generated reactions "
+                "to cancellation and closure timeouts) are driven down every exit path: natural end with an output or an error, caller cancellation "
+                "placed by a trigger on a generated instant of a generated step's life (before anything, after N ms, at/after deploy-begin with the "
+                "deployment held, at exec-start, at exec-end), failure of the launch of a later step (harness step kind vstartfail), and failing "
+                "schema probes during Prepare (deploy failure, write-refusing connection). oracle, read immediately when Execute / Prepare returns: "
+                "deployments == connection closes for that phase, no plugin execution in progress, and no goroutine with engine / pluginsdk / vplug "
+                "frames still alive after polling <= 2 s. non-trivial = a deployment or execution was live when the run decided to end",
+        "quick": {"cases": 900, "shards": 12, "shrinktime": "30s"},
+        "thorough": {"cases": 12000, "shards": 16, "shrinktime": "120s", "timeout_s": 3000},
+        "assumptions": RUN_ASSUME + ["goroutines are attributed by stack frames; a goroutine that needs more than 2 s to finish after return is reported as leaked"],
+    },
 }
